@@ -1,8 +1,138 @@
 import Genshi.Wire
+import Genshi.WireCore
+import Genshi.Model.XmlSer
+import Genshi.Model.XmlReader
+import Genshi.Model.XmlParser
+import Genshi.Model.XmlSpec
 namespace Driver.C02
-open Genshi
+open Genshi Genshi.Xml Genshi.Sexp
 
-/-- stub: the model driver for C02 is not built yet -/
-def handle : List Sexp → Option Sexp := fun _ => none
+/-
+  verbs (first token after `C02`):
+    emptytag <stream>                  -> list of events, EMPTY as ( EM qname attrs )
+    flatten <pref> <stream>            -> flattened events after EmptyTagFilter + NamespaceFlattener
+    xser <stream>                      -> ( ok text ) | raise
+    enc <ranges> <text>                -> text with character references
+    tok <text>                         -> ( ok tokens ) | N
+    read <text>                        -> ( ok events ) | N
+    roundtrip <ranges> <stream>        -> read (enc (ser stream))
+    domain <pref> <stream>             -> ( inDomain conclusionHolds inTextDomain textConclusionHolds ) for
+                                          xml_roundtrip_events / xml_roundtrip_partial
+    reparse <text>                     -> ( ok events-after-EmptyTagFilter ) | N   (spec-side parse)
+    coalesce <stream>                  -> stream
+    qname <text>                       -> ( ns loc )
+  <pref> = ( ( uri prefix ) ... ), <ranges> = ( ( lo hi ) ... )
+-/
+
+def attrsS (a : List (Str × Str)) : Sexp := .list (a.map fun (n, v) => .list [.str n, .str v])
+
+def fev : FEv → Sexp
+  | .start n a => .list [.atom "S", .str n, attrsS a]
+  | .empty n a => .list [.atom "EM", .str n, attrsS a]
+  | .end_ n => .list [.atom "E", .str n]
+  | .other e => e.toSexp
+
+def xev : XEv → Sexp
+  | .ev e => e.toSexp
+  | .empty t a => .list [.atom "EM", t.toSexp, attrsToSexp a]
+
+def rev : REv → Sexp
+  | .start t a => .list [.atom "S", t.toSexp, attrsToSexp a]
+  | .end_ t => .list [.atom "E", t.toSexp]
+  | .text s => .list [.atom "T", .str s]
+  | .comment s => .list [.atom "C", .str s]
+  | .pi t d => .list [.atom "PI", .str t, .str d]
+  | .startCdata => .atom "SC"
+  | .endCdata => .atom "EC"
+  | .xmlDecl v e s => .list [.atom "XD", .str v, optStr e, ofInt s]
+  | .doctype n p s => .list [.atom "DT", .str n, optStr p, optStr s]
+
+def pref? : Sexp → Option (List (Str × Str))
+  | .list xs => xs.mapM fun
+      | .list [.str u, .str p] => some (u, p)
+      | _ => none
+  | _ => none
+
+def ranges? : Sexp → Option (List (Nat × Nat))
+  | .list xs => xs.mapM fun
+      | .list [a, b] => do let a ← a.toNat?; let b ← b.toNat?; pure (a, b)
+      | _ => none
+  | _ => none
+
+def okList (f : α → Sexp) : Option (List α) → Sexp
+  | some xs => .list [.atom "ok", .list (xs.map f)]
+  | none => .atom "N"
+
+/-- white space outside the root element is not reported by a parser -/
+def dropTopWs : Nat → List FEv → List FEv
+  | _, [] => []
+  | d, .start n a :: es => .start n a :: dropTopWs (d + 1) es
+  | d, .end_ n :: es => .end_ n :: dropTopWs (d - 1) es
+  | 0, .other (.text s f) :: es => if s.all Reader.isSpace then dropTopWs 0 es else .other (.text s f) :: dropTopWs 0 es
+  | d, e :: es => e :: dropTopWs d es
+
+def handle : List Sexp → Option Sexp
+  | [.atom "emptytag", s] => do
+      let s ← streamOfSexp? s
+      pure (.list ((emptyTag s).map xev))
+  | [.atom "flatten", p, s] => do
+      let p ← pref? p; let s ← streamOfSexp? s
+      pure (.list ((flatten p (emptyTag s)).map fev))
+  | [.atom "xser", s] => do
+      let s ← streamOfSexp? s
+      match serialize s with
+      | some t => pure (.list [.atom "ok", .str t])
+      | none => pure (.atom "raise")
+  | [.atom "enc", r, .str t] => do
+      let r ← ranges? r
+      pure (.str (encodeText (inRanges r) t))
+  | [.atom "tok", .str t] => some (okList fev (Reader.tokenize t))
+  | [.atom "read", .str t] => some (okList rev (Reader.read t))
+  | [.atom "roundtrip", r, s] => do
+      let r ← ranges? r; let s ← streamOfSexp? s
+      match serialize s with
+      | some t => pure (okList rev (Reader.read (encodeText (inRanges r) t)))
+      | none => pure (.atom "raise")
+  | [.atom "domain", p, s] => do
+      -- is the stream inside the hypothesis of xml_roundtrip_events, and does the model satisfy its conclusion?
+      let p ← pref? p; let s ← streamOfSexp? s
+      let xs := emptyTag s
+      let inDom := docOK xs && prefOK p && decide (WellNested s)
+      let holds := decide (Reader.resolve ((flatten p xs).map normF) = some (canonX xs))
+      let inText := inDom && docTextOK (flatten p xs)
+      let textHolds := match serRun SerSt.init (flatten p xs) with
+        | some out => decide (Reader.read out = some (canonX xs))
+        | none => false
+      -- the same under the narrowest codec of the property (ASCII)
+      let ascii : Char → Bool := fun c => c.toNat < 128
+      let inAscii := inText && repMarkup ascii (flatten p xs)
+      let asciiHolds := match serRun SerSt.init (flatten p xs) with
+        | some out => decide (Reader.read (encodeText ascii out) = some (canonX xs))
+        | none => false
+      -- idempotence (ser_idempotent_partial)
+      let inIdem := inDom && idemOK p xs
+      let idemHolds := match reparseX PSt.init ((flatten p xs).map normF) with
+        | some xs2 => decide (flatten p xs2 = flatten p xs)
+        | none => false
+      -- input-side form of the text hypotheses (xml_roundtrip_partial), for the widest codec
+      let inInput := inDom && inputTextOKm (fun _ => true) p xs
+      let inputHolds := match serRun SerSt.init (flatten p xs) with
+        | some out => decide (Reader.read out = some (mergeR (canonX xs)))
+        | none => false
+      pure (.list [ofBool inDom, ofBool holds, ofBool inText, ofBool textHolds, ofBool inAscii, ofBool asciiHolds,
+                   ofBool inIdem, ofBool idemHolds, ofBool inInput, ofBool inputHolds])
+  | [.atom "reparse", .str t] =>
+      -- what XMLParser + EmptyTagFilter deliver for this text, according to the specification side
+      match Reader.tokenize t with
+      | some toks =>
+          match reparseX PSt.init (dropTopWs 0 toks) with
+          | some xs => some (.list [.atom "ok", .list (xs.map xev)])
+          | none => some (.atom "N")
+      | none => some (.atom "N")
+  | [.atom "coalesce", s] => do
+      let s ← streamOfSexp? s
+      pure (streamToSexp (coalesce s))
+  | [.atom "qname", .str t] => some (qnameOf t).toSexp
+  | _ => none
 
 end Driver.C02
